@@ -223,7 +223,7 @@ func wConfig(prop, tier string) *Config {
 			"fee_tx_uusdc", "fee_tx_uatom", "fee_tx_uelys", "fee_tx_uatom_nofeed", "fee_tx_uelys_nofeed", "mc_claim_lp1", "claim_vesting_lp1", "vest_eden_lp1", "unstake_elys_lp1", "send_elys_to_burn_addr",
 			"price_atom_2", "price_atom_1", "price_atom_12", "nofeed", "nofeed_2d", "gap_1h", "gap_2d", "gap_8d", "gap_40d", "empty",
 			"ext_incentive_now_lp1", "ext_incentives_two_new_denoms_lp1", "swap_batch_opposite_p1", "llp_open_t1_x3_stoploss", "perp_open_long_t1_stoploss",
-			"estaking_withdraw_reward_lp1", "stake_eden_lp1", "tier_set_portfolio_t1", "feed_ext_liquidity_p1_deep", "feed_ext_liquidity_p1_thin", "feed_ext_liquidity_p1_depth1", "exit_p1_single_uusdc_largest_accepted_lp1"}
+			"estaking_withdraw_reward_lp1", "stake_eden_lp1", "tier_set_portfolio_t1", "feed_ext_liquidity_p1_deep", "feed_ext_liquidity_p1_thin", "feed_ext_liquidity_p1_depth1", "exit_p1_single_uusdc_largest_accepted_lp1", "join_p1_duplicate_denom_t1", "join_p1_unsorted_t1", "join_p2_duplicate_pair_t1"}
 		cfg.Oracles = []*Oracle{OracleC18()}
 		cfg.BlockFailure = true
 		cfgOps := []string{}
